@@ -59,6 +59,21 @@ func (p *EventTriggerRegisteredEventProcessor) FetchEvents(ctx context.Context, 
 	return events, nil
 }
 
+// FirstEventBlock implements RangeLimiter: triggers registered in a block are matched against logs
+// of later blocks only after the registration has been stored.
+func (p *EventTriggerRegisteredEventProcessor) FirstEventBlock(events []Event) (uint64, bool) {
+	var first uint64
+	found := false
+	for _, event := range events {
+		registryEvent := event.(*triggerRegistryV1Bindings.Shuttereventtriggerregistryv1EventTriggerRegistered)
+		if !found || registryEvent.Raw.BlockNumber < first {
+			first = registryEvent.Raw.BlockNumber
+			found = true
+		}
+	}
+	return first, found
+}
+
 func (p *EventTriggerRegisteredEventProcessor) ProcessEvents(ctx context.Context, tx pgx.Tx, events []Event) error {
 	queries := database.New(tx)
 	for _, event := range events {
